@@ -2,6 +2,7 @@ import GridVerif.Props.C19
 import GridVerif.Props.C19.State
 import GridVerif.Props.C19.BReject
 import GridVerif.Props.C19.T1D
+import GridVerif.Props.C19.Handout
 
 #print axioms GridVerif.C19.safe_init
 #print axioms GridVerif.C19.step_safe
@@ -45,3 +46,10 @@ import GridVerif.Props.C19.T1D
 #print axioms GridVerif.C19.t1d_rejected_leaves_no_trace
 #print axioms GridVerif.C19.t1d_guard_after_state_fails_at
 #print axioms GridVerif.C19.b_history_any_entry_point
+#print axioms GridVerif.C19.shell_grid_arrays_fresh
+#print axioms GridVerif.C19.shell_grid_edit_leaves_parent
+#print axioms GridVerif.C19.shell_view_edit_changes_parent_at
+#print axioms GridVerif.C19.request_resolved_on_every_path
+#print axioms GridVerif.C19.size_request_independent_of_cache
+#print axioms GridVerif.C19.degree_request_independent_of_cache
+#print axioms GridVerif.C19.resolve_skipped_on_hit_fails_at
